@@ -143,9 +143,16 @@ def run_shard(spec, rec):
                 lengths = [R.choice([0, 1, 2, 3, 4, 5, 6, 8, 12]) for _ in range(6)]
                 if trial == 0 and b is not None and b > 0:
                     lengths = [b - 1, b + 3, b, b + 1, 0, b + 5]
+                same_object = trial % 2 == 1   # the very same list object, grown and shrunk in place between applications
+                held = []
                 for n in lengths:
                     n = max(0, n)
-                    doc = [[i] for i in range(n)]
+                    if same_object:
+                        del held[n:]
+                        held.extend([i] for i in range(len(held), n))
+                        doc = held
+                    else:
+                        doc = [[i] for i in range(n)]
                     want = sem.slice_indices_capped(n, a, b, c)
                     o2 = mon.observe(lambda: list(q.finditer(doc)))
                     rec.monitor("M-find")
